@@ -168,7 +168,10 @@ class CFGNode {
 
   // Node condition. The binding representing condition for node's branch.
   Binding* condition() const { return condition_; }
-  void set_condition(Binding* condition) { this->condition_ = condition; }
+  void set_condition(Binding* condition) {
+    program_->InvalidateSolver();
+    this->condition_ = condition;
+  }
 
   // Incoming nodes, i.e. program paths that converge at this point.
   const std::vector<CFGNode*>& incoming() const { return incoming_; }
